@@ -75,6 +75,8 @@ func (sd Sender[T]) Send(v T) {
 	s.point(t, p)
 	if p.committed < 0 {
 		c.perform(t, 0)
+		s.acc(t, c.cid, true)
+		commitPartnerHash(t)
 	}
 }
 
@@ -94,7 +96,7 @@ func (c *RCase[T]) ready(t *thread, i int) bool {
 	if len(c.ch) > 0 {
 		return true
 	}
-	if cap(c.ch) == 0 && findPartner(t, c.cid, true) != nil {
+	if cap(c.ch) == 0 && !s.closed[c.cid] && findPartner(t, c.cid, true) != nil {
 		return true
 	}
 	// closed-and-empty (or a real, unmanaged sender): probe; a hit is committed to us
@@ -120,12 +122,13 @@ func (c *RCase[T]) perform(t *thread, i int) {
 			panic("vrt: buffered receive would block (unowned nondeterminism)")
 		}
 	}
-	if cap(c.ch) == 0 {
+	if cap(c.ch) == 0 && !s.closed[c.cid] {
 		if pt, pi := findPartnerIdx(t, c.cid, true); pt != nil {
 			sc := pt.pend.cases[pi].(*SCase[T])
 			c.V, c.OK, c.stashed = sc.v, true, true
 			sc.sent = true
 			pt.pend.committed = pi
+			s.lastPartner = pt
 			return
 		}
 	}
@@ -183,6 +186,7 @@ func (c *SCase[T]) perform(t *thread, i int) {
 		rc.V, rc.OK, rc.stashed = c.v, true, true
 		c.sent = true
 		pt.pend.committed = pi
+		s.lastPartner = pt
 		return
 	}
 	// a real (unmanaged) receiver may be parked on the real channel
@@ -249,6 +253,8 @@ func Recv2[T any](ch <-chan T) (T, bool) {
 	s.point(t, p)
 	if p.committed < 0 {
 		c.perform(t, 0)
+		s.acc(t, c.cid, true)
+		commitPartnerHash(t)
 	}
 	return c.V, c.OK
 }
@@ -272,6 +278,7 @@ func Close[T any](ch chan<- T) {
 	cid := uintptr(*(*unsafe.Pointer)(unsafe.Pointer(&ch)))
 	close(ch) // panics exactly as Go does for nil / closed channels
 	s.closed[cid] = true
+	s.acc(t, cid, true)
 }
 
 // Select replaces a select statement: returns the index of the chosen case, -1 for
@@ -303,6 +310,11 @@ func Select(hasDefault bool, cases ...Case) int {
 			ready = append(ready, i)
 		}
 	}
+	for _, c := range cs {
+		if c != nil {
+			s.acc(t, c.id(), false)
+		}
+	}
 	if len(ready) == 0 {
 		if hasDefault {
 			return -1
@@ -315,6 +327,8 @@ func Select(hasDefault bool, cases ...Case) int {
 	}
 	idx := ready[k]
 	cs[idx].perform(t, idx)
+	s.acc(t, cs[idx].id(), true)
+	commitPartnerHash(t)
 	// un-stash receive probes of the cases not taken: a probe only consumes from a
 	// closed channel (re-readable) or from an unmanaged sender (documented limitation)
 	return idx
@@ -365,5 +379,16 @@ func (c *SCase[T]) tryReal() bool {
 		return true
 	default:
 		return false
+	}
+}
+
+// commitPartnerHash folds the event just performed by t into the thread it completed
+// a rendezvous with (the partner observes the value / the hand-off).
+func commitPartnerHash(t *thread) {
+	if p := s.lastPartner; p != nil {
+		s.lastPartner = nil
+		if s.hbOn {
+			p.h = mix(p.h, t.h)
+		}
 	}
 }
